@@ -54,6 +54,8 @@ class Prop:
         off = rng.choice([None, None, None, 37, 123, 411])
         if off:
             sc["sub2_t"] = 205 + off
+        from simlib import multi
+        multi.gen_feedback(rng, sc, src, p=0.15)  # a consumer that answers an element by pushing a follow-up element into the (hot) source
         return sc
 
     def build(self, w, sc):
